@@ -539,6 +539,12 @@ def check(prop, tier):
     if not okm:
         broken_thm = (broken_thm or "") + " model extraction/build failed: " + outm[-300:]
 
+    chk = None
+    if tier == "thorough" and thm_ok and a_ok:
+        chk = coqchk(prop)
+        if chk["rc"] != 0 or chk["axioms"] not in ("<none>",):
+            broken_thm = "coqchk does not accept Properties/%s.vo or reports axioms: %s" % (prop, chk["axioms"])
+
     # --- correspondence
     n = cfg["n_" + tier]
     evaluations = 0
@@ -651,8 +657,9 @@ def check(prop, tier):
         "exhaustive": bool(cfg.get("exhaustive", False)),
     }
     ev["assumptions"] = cfg.get("assumptions", [])
-    if tier == "thorough" and thm_ok:
-        ev["coverage"]["coqchk"] = coqchk(prop)
+    if chk is not None:
+        ev["coverage"]["coqchk"] = {k: chk[k] for k in ("rc", "wall_s", "axioms", "cached")}
+
     evdir = os.path.join(ROOT, "evidence") if not ALT else os.path.join(WORK, "evidence" + ALT)
     os.makedirs(evdir, exist_ok=True)
     json.dump(ev, open(os.path.join(evdir, prop + ".json"), "w"), indent=1)
@@ -680,9 +687,26 @@ TRUSTED_COMMON = [
 
 
 def coqchk(prop):
+    """Independent re-check (coqchk -silent -o) of the compiled property file and everything it depends on.
+    Results are cached per property on the hash of its transitive sources (a run takes 10-25 min)."""
+    deps = coq_deps(prop)
+    h = hashlib.sha1()
+    for f in deps:
+        h.update(open(os.path.join(COQ, f), "rb").read())
+    key = h.hexdigest()
+    cache = os.path.join(WORK, "coqchk-%s.json" % prop)
+    if os.path.exists(cache):
+        c = json.load(open(cache))
+        if c.get("key") == key:
+            c["cached"] = True
+            return c
     t0 = time.time()
-    rc, out = sh("timeout 2400 coqchk -silent -o -Q theories SV SV.Properties.%s 2>&1 | tail -40" % prop, cwd=COQ, timeout=2500)
-    return {"rc": rc, "wall_s": round(time.time() - t0, 1), "tail": out[-3000:]}
+    rc, out = sh("timeout 3000 coqchk -silent -o -Q theories SV SV.Properties.%s 2>&1 | tail -40" % prop, cwd=COQ, timeout=3100)
+    axioms = re.findall(r"\* Axioms:\s*(.*?)\n\s*\n", out, flags=re.S)
+    res = {"key": key, "rc": rc, "wall_s": round(time.time() - t0, 1), "axioms": axioms[0].strip() if axioms else "?",
+           "tail": out[-1500:], "cached": False}
+    json.dump(res, open(cache, "w"), indent=1)
+    return res
 
 
 def replay(path):
